@@ -9,6 +9,7 @@ import SST.Drv.Wal
 import SST.Drv.Handles
 import SST.Drv.Conc
 import SST.Drv.FS
+import SST.Drv.Stack
 open SST SST.Drv
 
 def handle (line : String) : String :=
@@ -40,6 +41,7 @@ def handle (line : String) : String :=
     | "fs.recover" => Fs.fsRecover a
     | "fs.recimages" => Fs.fsRecImages a
     | "fs.session" => Fs.fsSession a
+    | "stack.run" => stackRun a
     | "ping" => "pong"
     | _ => "bad-op"
 
